@@ -9,7 +9,7 @@
    Proofs/WritersDict.v: wf_db (keys, field names, roles unique up to case; every role has a person -- what the API
    builds), map_ids.  Proofs/WritersTree.v: parts_ok p := reparse_person p = Ok p, yaml_ok, xml_ok. *)
 From Pybtex Require Import Base.Prelude Base.PyChar Base.PyStr Model.BibtexStr Model.Names Model.Scanner Model.BibParser Model.Writers
-  Proofs.Writers Proofs.WritersDict Proofs.WritersTree.
+  Proofs.Writers Proofs.WritersDict Proofs.WritersTree Proofs.WritersQuote Proofs.WritersPerson.
 
 (* ---- identifier lower-casing changes nothing but the letter case of keys, entry types, field names, roles *)
 Theorem lower_only_case : forall d, wf_db d -> lower_db d = Ok (map_ids lower d).
@@ -73,3 +73,38 @@ Example ex_yaml : from_tree_yaml (to_tree_yaml ex_db) = Ok (norm_preamble ex_db)
 Proof. vm_compute. auto. Qed.
 Example ex_xml : from_tree_xml (to_tree_xml ex_db_lc) = Ok (drop_preamble ex_db_lc).
 Proof. vm_compute. auto. Qed.
+
+(* ---- Writer.quote against the .bib reader: for a brace-balanced value (nesting <= 100; Proofs/WritersQuote.v
+   [balanced]) whatever quote returns -- "v" or {v} -- is read back by parse_value_part as exactly v, consuming
+   exactly the quoted text, reporting no error and leaving the rest of the parser state (macros, errors,
+   current_* attributes: [frame]) untouched.  [m] is the error mode, [tail] what follows in the file. *)
+Theorem quote_roundtrip : forall m v q s tail,
+  balanced v -> quote v = Ok q -> sc_rest (p_sc s) = q ++ tail ->
+  exists s', parse_value_part m s = Ret v s' /\ sc_rest (p_sc s') = tail /\ frame s' = frame s.
+Proof. exact quote_roundtrip_pf. Qed.
+Print Assumptions quote_roundtrip.
+
+(* ---- persons: joining the tokens of each part with one space (get_part_as_text) and re-splitting
+   (Person(first=..., ...)) is the identity.  Proved for tokens of plain characters (non-empty, no whitespace,
+   none of ~ \ { }); full statement of DESIGN.md (brace-balanced tokens without brace-level-0 BibTeX space that
+   do not end in a backslash) not proved yet: partial. *)
+Theorem person_parts_roundtrip_partial : forall p, plain_person p -> reparse_person p = Ok p.
+Proof. exact person_parts_plain_pf. Qed.
+Print Assumptions person_parts_roundtrip_partial.
+
+(* ... and the restriction on backslashes is needed: tokens  a\  b  come back as  a  b *)
+Theorem person_parts_backslash_refuted :
+  Forall (fun t => t <> [] /\ forallb (fun c => negb (is_space c || (c =? c_tilde) || is_lbrace c || is_rbrace c))%N t = true)
+         (p_first backslash_person ++ p_last backslash_person) /\
+  reparse_person backslash_person = Ok (mkPerson [[97]; [98]] [] [] [[67]] [])%N /\
+  reparse_person backslash_person <> Ok backslash_person.
+Proof. exact person_parts_backslash_refuted_pf. Qed.
+Print Assumptions person_parts_backslash_refuted.
+
+Example ex_quote_braced : balanced (s2l "A {B} ""c""") /\ quote (s2l "A {B} ""c""") = Ok (s2l "{A {B} ""c""}").
+Proof. vm_compute. auto. Qed.
+Example ex_quote_quoted : balanced (s2l "A {B{C}} \""{o}") /\ quote (s2l "A {B{C}} \""{o}") = Ok (s2l "{A {B{C}} \""{o}}")
+  /\ balanced (s2l "x {y}") /\ quote (s2l "x {y}") = Ok (s2l """x {y}""").
+Proof. vm_compute. auto. Qed.
+Example ex_plain_person : plain_person ex_person /\ plain_person knuth.
+Proof. split; repeat constructor; discriminate. Qed.
